@@ -9,7 +9,8 @@ LEVEL = ("Static analysis of linfa-clustering's Gaussian mixture: (refresh) on e
          "the precisions are recomputed from the current precision factors after the last M-step and before the copy; (err) "
          "inside everything reachable from fit, the results of Cholesky factorisation, triangular solves, min/argmin and the "
          "parameter estimation are propagated as errors, never unwrapped, and the empty-component test precedes the division "
-         "by the component weights; (lse) the responsibilities' log-sum-exp exponentiates v - max(v). Necessary conditions of "
+         "by the component weights; (lse) the responsibilities' log-sum-exp exponentiates v - max(v); (posterior) everything predict and predict_proba compute "
+         "is reached from reads of the mixing weights, the means and the precision factors. Necessary conditions of "
          "'precisions are the inverses of the covariances', 'failures are reported as errors' and 'membership probabilities "
          "are finite arbitrarily far from the data'. Mixture validity as numbers is not decided.")
 ASSUME = ["rustc resolution/typeck; HIR faithfully dumped"]
